@@ -18,6 +18,16 @@ package obykeyset
 //@   ensures[tag-is-the-template-over-this-tuple] len(old(o.tagBuilder.tagExpander.partProviders)) == 1 ==> obase.lasttag === stringtemplate.ppval(ref(old(o.tagBuilder.tagExpander.partProviders[0])), keys)
 //@   ensures[tag-length-is-the-template-over-this-tuple] len(old(o.tagBuilder.tagExpander.partProviders)) != 1 ==> len(obase.lasttag) == stringtemplate.elen(old(o.tagBuilder.tagExpander), keys, len(old(o.tagBuilder.tagExpander.partProviders)))
 
+// Queue directories found at startup are named by pipeline ids: the tuple a pipeline is re-created for must be the tuple
+// that produced the id - the id is exactly that tuple joined with "," and no recovered value contains the separator (so,
+// with util.lemmaJoinedInjective, it is the only separator-free tuple with that id).
+//@ func NewOrchestrator(parentLogger logger.Logger, schema base.LogSchema, keyFields []string, tagTemplate string, metricCreator promreg.MetricCreator, startPipeline obase.PipelineStarter, initialPipelineIDs []string) base.Orchestrator
+//@   property C06
+//@   flag nosafety noinfer
+//@   modifies everything
+//@   before localcachedmap.LocalCachedMap.GetOrCreate: assert[recovered-queue-id-is-the-joined-tuple] len(keys) == len(keyFields) && joinedof(pipelineID, joinpos, keys, 44, len(keys))
+//@   before localcachedmap.LocalCachedMap.GetOrCreate: assert[recovered-keys-are-separator-free] forall k int :: 0 <= k && k < len(keys) ==> nosep(keys[k], 44)
+
 // ==== per-connection buffers towards the pipelines (C05: arrival order; C01: nothing is left behind by a flush) ===================
 // Append keeps arrival order (the record becomes the last pending one, everything before it stays); Flush hands over a
 // copy of exactly the pending records, in order, as ONE message on the pipeline's FIFO channel (or reports a BUG after the
